@@ -189,3 +189,52 @@ package stats
 //@        (alt == -1 ==> bits(p, ncdf(StdNormal.Mu, StdNormal.Sigma, zScore(u, n1, n2, tv, alt)))) &&
 //@        (alt == 1 ==> bits(p, 1.0 - ncdf(StdNormal.Mu, StdNormal.Sigma, zScore(u, n1, n2, tv, alt)))) &&
 //@        (alt == 0 ==> bits(p, 2.0 * math.Min(ncdf(StdNormal.Mu, StdNormal.Sigma, zScore(u, n1, n2, tv, alt)), 1.0 - ncdf(StdNormal.Mu, StdNormal.Sigma, zScore(u, n1, n2, tv, alt))))))
+
+// ---------------------------------------------------------------------------
+// Order statistics (C12, C17): R8 percentiles of a sorted, unweighted sample
+
+// Bounds of a slice: both ends are elements of it and bracket every element
+// (for NaN-free data).
+//@ func Bounds(xs []float64) (min float64, max float64)
+//@   props C12
+//@   ensures len(xs) == 0 ==> isNaN(min) && isNaN(max)
+//@   ensures len(xs) > 0 && noNaN(xs) ==> (forall j int :: 0 <= j < len(xs) ==> min <= xs[j] && xs[j] <= max)
+//@   ensures len(xs) > 0 ==> (exists j int :: 0 <= j < len(xs) && bits(min, xs[j])) && (exists j int :: 0 <= j < len(xs) && bits(max, xs[j]))
+//@   loop 1:
+//@     invariant 0 <= idx() <= len(xs) && unchanged()
+//@     invariant noNaN(xs) ==> (forall j int :: 0 <= j < idx() ==> min <= xs[j] && xs[j] <= max) && min <= xs[0] && xs[0] <= max
+//@     invariant (exists j int :: 0 <= j < len(xs) && bits(min, xs[j])) && (exists j int :: 0 <= j < len(xs) && bits(max, xs[j]))
+//@     decreases len(xs) - idx()
+
+//@ func (s Sample) Bounds() (min float64, max float64)
+//@   props C12
+//@   requires s.Sorted && s.Weights == nil
+//@   ensures len(s.Xs) == 0 ==> isNaN(min) && isNaN(max)
+//@   ensures len(s.Xs) > 0 ==> bits(min, s.Xs[0]) && bits(max, s.Xs[len(s.Xs)-1])
+//@   loop 1:
+//@     invariant 0 <= idx() <= rlen()
+//@   loop 2:
+//@     invariant 0 <= idx() <= rlen()
+//@   loop 3:
+//@     invariant 0 <= idx() <= rlen()
+
+// r8pos(p, n): the (real-valued, 1-based) position of the p-quantile among n
+// sorted values under Hyndman-Fan method R8: 1/3 + p (n + 1/3).
+//@ pure func r8pos(p float64, n int) float64 = 1.0/3.0 + p*(float64(n) + 1.0/3.0)
+
+// For a sorted unweighted sample Percentile is exactly R8: the two extreme
+// order statistics outside (0,1) or when the position falls off either end,
+// and otherwise linear interpolation between the two neighbouring values.
+//@ func (s Sample) Percentile(pctile float64) (r float64)
+//@   props C12 C17
+//@   requires s.Sorted && s.Weights == nil
+//@   ensures len(s.Xs) == 0 ==> isNaN(r)
+//@   ensures len(s.Xs) > 0 && pctile <= 0.0 ==> bits(r, s.Xs[0])
+//@   ensures len(s.Xs) > 0 && pctile >= 1.0 ==> bits(r, s.Xs[len(s.Xs)-1])
+//@   ensures len(s.Xs) > 0 && !(pctile <= 0.0) && !(pctile >= 1.0) && int(math.Modf_0(r8pos(pctile, len(s.Xs)))) <= 0 ==> bits(r, s.Xs[0])
+//@   ensures len(s.Xs) > 0 && !(pctile <= 0.0) && !(pctile >= 1.0) && int(math.Modf_0(r8pos(pctile, len(s.Xs)))) >= len(s.Xs) ==> bits(r, s.Xs[len(s.Xs)-1])
+//@   ensures len(s.Xs) > 0 && !(pctile <= 0.0) && !(pctile >= 1.0) && 0 < int(math.Modf_0(r8pos(pctile, len(s.Xs)))) && int(math.Modf_0(r8pos(pctile, len(s.Xs)))) < len(s.Xs) ==>
+//@             bits(r, s.Xs[int(math.Modf_0(r8pos(pctile, len(s.Xs))))-1] +
+//@                     math.Modf_1(r8pos(pctile, len(s.Xs))) * (s.Xs[int(math.Modf_0(r8pos(pctile, len(s.Xs))))] - s.Xs[int(math.Modf_0(r8pos(pctile, len(s.Xs))))-1]))
+//@   loop 1:
+//@     invariant 0 <= idx() <= rlen()
